@@ -652,8 +652,27 @@ pub fn parse_type<'t>(ctx: Context<'t>) -> ParseResult<'t, Type> {
 
         T::Identifier(_) => {
             let (ctx, ass) = type_assignable(ctx)?;
-            let (ctx, vars) =
-                parse_beg_end_comma_sep!(ctx, T::LeftParen, T::RightParen, &parse_type)?;
+            let (ctx, vars) = if matches!(ctx.token(), T::LeftParen) {
+                // Line breaks inside the brackets are insignificant, up to the closing one.
+                let (inner, skip_newlines) = ctx.skip(1).push_skip_newlines(true);
+                let sep = |ctx: Context<'t>| {
+                    Ok((expect!(ctx, T::Comma, "Expected ',' as seperator"), ()))
+                };
+                let end = |ctx: Context<'t>| {
+                    let is_end = matches!(ctx.token(), T::RightParen);
+                    Ok((
+                        if is_end {
+                            ctx.pop_skip_newlines(skip_newlines).skip(1)
+                        } else {
+                            ctx
+                        },
+                        is_end,
+                    ))
+                };
+                parse_sep_end_by(inner, &sep, &end, &parse_type)?
+            } else {
+                (ctx, Vec::new())
+            };
             (ctx, UserDefined(ass, vars))
         }
 
@@ -756,7 +775,8 @@ pub fn parse_type<'t>(ctx: Context<'t>) -> ParseResult<'t, Type> {
 
         // Tuple
         T::LeftParen => {
-            let mut ctx = ctx.skip(1);
+            // Line breaks inside the brackets are insignificant, as in a tuple expression.
+            let (mut ctx, skip_newlines) = ctx.skip(1).push_skip_newlines(true);
             let mut types = Vec::new();
             // Tuples may (and probably will) contain multiple types.
             let mut is_tuple = matches!(ctx.token(), T::Comma | T::RightParen);
@@ -780,6 +800,7 @@ pub fn parse_type<'t>(ctx: Context<'t>) -> ParseResult<'t, Type> {
                     }
                 }
             }
+            let ctx = ctx.pop_skip_newlines(skip_newlines);
             let ctx = expect!(ctx, T::RightParen, "Expected ')' after tuple or grouping");
             if is_tuple {
                 (ctx, Tuple(types))
@@ -791,7 +812,9 @@ pub fn parse_type<'t>(ctx: Context<'t>) -> ParseResult<'t, Type> {
         // List
         T::LeftBracket => {
             // Lists only contain a single type.
-            let (ctx, ty) = parse_type(ctx.skip(1))?;
+            let (ctx, skip_newlines) = ctx.skip(1).push_skip_newlines(true);
+            let (ctx, ty) = parse_type(ctx)?;
+            let ctx = ctx.pop_skip_newlines(skip_newlines);
             let ctx = expect!(ctx, T::RightBracket, "Expected ']' after list type");
             (ctx, List(Box::new(ty)))
         }
